@@ -18,4 +18,10 @@ PROPS = {
         'correspondence': 'GetCosmeticOption of the implementation vs get_cosmetic_option of the model on the parsed option word',
         'assumptions': ['option word of the rule is read through the verif hook VerifFields'],
     },
+    'C10': {
+        'harness': 'c10',
+        'rule': 'values generated around every keyword, record type, field count and numeric bound (65535/65536, signs, leading zeros, empty fields), IPv4/IPv6 syntax corner cases, host-name corner cases, wrong delimiter counts, plus byte mutations of valid values; each parsed through NewNetworkRule("||h^$dnsrewrite="+v); non-trivial = the value was accepted with a rewrite (or the parser panicked); distinct = distinct values',
+        'correspondence': 'canonical rendering (NewCNAME, RCode, RRType, dynamic type tag and fields of Value) of the implementation result vs the model result; the harness also evaluates the published shape predicate on the implementation result and parses twice (determinism)',
+        'assumptions': ['values with bytes >= 0x80 or IPv6 zones are outside the modelled fragment (counted as unsupported; only the Go-side shape predicate applies to them)'],
+    },
 }
